@@ -121,6 +121,7 @@ type pathEnd struct{ reason string }
 type forkReq struct {
 	target ssa.Value
 	alts   []Alt
+	split  bool // deliberate case split: outcomes must not be merged back
 }
 
 func NewEngine(ld *Loaded, cfg Config) (*Engine, error) {
@@ -458,6 +459,9 @@ func (e *Engine) safeStep(fr *Frame, st *State) (res stepResult, endReason strin
 					al := al
 					bs = append(bs, branch{cond: al.cond, apply: func(f *Frame, s *State) {
 						f.locals[fi.idx[x.target]] = al.v
+						if x.split {
+							s.splits++
+						}
 					}})
 				}
 				res = stepResult{kind: stepBranch, branches: bs}
@@ -490,7 +494,7 @@ func (e *Engine) runPath(fr *Frame, st *State, stack *[]work) (Outcome, bool) {
 		}
 		st.steps++
 		e.rep.Steps++
-		if st.steps > e.cfg.MaxSteps {
+		if st.steps > e.bound("max_steps", e.cfg.MaxSteps) {
 			e.rep.UnwindHits++
 			e.note("step limit reached in " + fr.fn.String())
 			return Outcome{}, false
